@@ -26,3 +26,65 @@ PROPS['C07'] = dict(
     assumptions=['encoders are called with cap+1 bytes of output space (documented contract)',
                  'alphabet sets taken from the property statement; index order inside an alphabet is not judged'],
 )
+
+SIMSRC = ['sim/harness.cc', 'sim/scenario.cc', 'ref/refdns.cc', 'ref/refmisc.cc', 'ref/refproto.cc']
+IMGS = ['srv', 'cli0', 'cli1', 'cli2']
+TB_SIM = TB_COMMON + ['sim/simnet.cc model of UDP sockets, select(), tun device, time() and rand()',
+                      'ref/refdns.cc, ref/refproto.cc, ref/refmisc.cc (independent oracles)', 'zlib']
+AS_SIM = ['only numeric IPv4/IPv6 addressing; no ICMP errors, EINTR or partial tun writes are modelled',
+          'Linux tun framing (4-byte header)', 'HAVE_SYSTEMD / HAVE_SETCON code is not compiled']
+
+PROPS['C19'] = dict(
+    bin='c19', sources=['props/c19.cc'] + SIMSRC, unit_objs=UNIT, images=IMGS, engine='rc',
+    quick=dict(workers=4, cases=40000, budget=40, min_nontrivial=1000),
+    thorough=dict(workers=16, cases=3000000, budget=900, min_nontrivial=100000),
+    rule='unit case = (password 0..40 bytes from three byte classes, challenge from boundary/single-bit/uniform classes): '
+         'login_calculate vs independent MD5 of pad32(password) xor 8 x big-endian challenge, plus metamorphic checks '
+         '(every challenge bit and each of the first 32 password bytes matter, byte 33 does not, short output buffer '
+         'untouched); system case (1 in 31) = real client + real server over simnet with raw mode: login message bytes '
+         '1..16, client raw login (challenge+1) and server raw reply (challenge-1) compared on the wire. '
+         'non-trivial iff password non-empty (unit) / all three frames observed (system); distinct = hash of choice tape',
+    engine_text='rapidcheck over choice tapes; unit shape + simnet (real iodine + iodined)',
+    bounds='password <= 40 bytes, 32-bit challenges sampled (boundary values always included)',
+    trusted_base=TB_SIM + ['refmd5 self-tested against the RFC 1321 vectors at start-up'],
+    assumptions=AS_SIM + ['MD5 collisions (2^-128) ignored'],
+)
+
+PROPS['C18'] = dict(
+    bin='c18', sources=['props/c18.cc', 'sim/harness.cc'], unit_objs=UNIT, engine='rc',
+    enum_parts=8, exhaustive_claim=True,
+    quick=dict(workers=4, cases=20000, budget=40, min_nontrivial=1000, enum_arg=1),
+    thorough=dict(workers=8, cases=2000000, budget=600, min_nontrivial=50000, enum_arg=2),
+    rule='case = (netmask 8..30, network base from 7 fixed bases or random, server host position from '
+         '{first 20, last 4, middle, random}, per-slot liveness pattern); oracle = statement computed in host byte '
+         'order: count = min(16, size-3), addresses distinct / in subnet / not server, network or broadcast, lookup '
+         'returns the slot iff active+authenticated+seen<60s, -1 for server/network/broadcast/unassigned. non-trivial iff '
+         'the server sits within the first 18 host positions (skip logic exercised) or the subnet has <= 32 addresses; '
+         'distinct = hash of (mask, base, position) / choice tape',
+    exhaustive_text='every host position (incl. network and broadcast positions) for 10.0.0.0/20../21 (quick) or /16../21 (thorough) and for 7 bases x /22../30; '
+                    '14 boundary positions for every other (mask, base) pair',
+    engine_text='exhaustive enumerator + rapidcheck, unit shape, time() from the simulator clock',
+    bounds='netmask 8..30 (range enforced by iodined)',
+    trusted_base=TB_COMMON + ['glue/unit_api.c accessors for users[]'],
+    assumptions=['liveness band: silent 62 s = expired, <= 58 s = live; the 58..62 s band is not judged'],
+)
+
+PROPS['C17'] = dict(
+    bin='c17', sources=['props/c17.cc', 'sim/harness.cc', 'ref/refmisc.cc'], unit_objs=UNIT, engine='rc',
+    enum_parts=7, exhaustive_claim=True,
+    quick=dict(workers=4, cases=60000, budget=40, min_nontrivial=1000, enum_arg=1),
+    thorough=dict(workers=8, cases=3000000, budget=600, min_nontrivial=50000, enum_arg=2),
+    rule='validation case = constructed domain (labels of 1..12/63/64/60..66 chars, optional leading *, then one of: trailing '
+         'dot, leading dot, double dot, foreign byte, padding to 128..130, truncation to 0..4) x wildcard flag; matching case = '
+         '(valid plain or wildcard domain, query name built as: inside / glued without dot / exactly the domain / suffix minus '
+         'first char / unrelated / ~250 chars, with random case flips and hostile bytes); oracle = label-wise reference '
+         '(ref/refmisc.cc): accept/reject equality and equality of the data length. non-trivial iff the name shares a suffix '
+         'of >= 3 characters with the domain (matching) or the string has >= 3 characters (validation)',
+    exhaustive_text='all strings of length <= 7 over {a,A,b,-,.,*,0} x wildcard flag for validation (1.92 M); all names of '
+                    'length <= 7 (quick) / <= 8 (thorough) without empty labels against 13 domains for matching; '
+                    '63/64-char label and 128/129-char total boundary constructions',
+    engine_text='exhaustive enumerator + rapidcheck, unit shape',
+    bounds='names <= 255 characters',
+    trusted_base=TB_COMMON + ['ref/refmisc.cc label-wise reference'],
+    assumptions=['query names never contain empty labels (the name reader cannot produce them)'],
+)
